@@ -120,7 +120,7 @@ prop("C12",
      "Decides D1 (ids listed in ascending id order and sorted by a stable sort whose comparator is ranks[first] vs ranks[second], ascending), "
      "D2 (the Data edge goes from the outer element to an element at a later position of the same sorted list), D3 (no hash-ordered container, "
      "RNG, clock, thread, env or address-derived value reachable from build()), D4 (FnGraph == compares node count, each edge's source, target and "
-     "weight, and each function, pairwise over unfiltered zipped sequences).",
+     "weight, and each function, pairwise over unfiltered zipped sequences, as a conjunction: one unequal pair decides), D2 also requires the outer scan to run from the highest rank down (non-redundancy).",
      "MIR expression reconstruction of the comparator/list construction + iterator-chain inventory + callee/type inventory",
      "non-redundancy of Data edges and the exact tie-break outcome as functions of the input")
 
@@ -137,9 +137,9 @@ prop("C13",
 prop("C16",
      [("E", B.C16_rules, ("K0", "K4"), {})],
      ("K0", "K4"),
-     "Decides E1 (add_logic_edge/add_contains_edge are exactly one daggy::Dag::update_edge(from, to, const Logic|Contains) with the result returned "
-     "unchanged), E2 (batch forms call the matching single form per element in array order through a short-circuiting try_for_each and return the first error), "
-     "E3 (no other builder method mutates edges).",
+     "Decides E1 (add_logic_edge/add_contains_edge perform exactly one daggy::Dag::update_edge(from, to, const Logic|Contains) - directly or through crate-local helpers whose parameters are "
+     "resolved at their call site - with the result returned unchanged), E2 (batch forms perform that same insertion once per element in array order, with the kind their name says, stop at and return the first error), "
+     "E3 (no other public builder method mutates the edges of the user's graph).",
      "MIR call inventory with resolved callees + argument provenance",
      "daggy's cycle test itself (update_edge: must_check_for_cycle + has_path_connecting), trusted")
 
@@ -160,7 +160,7 @@ prop("C07",
      "Decides F1 (on the Err arm of the user future exactly one awaited send on the RESULT channel carries that error), F2 (from the Err arm every "
      "path to the done-send passes through the release of the done-sender), F3 (RESULT capacity monotone in node_count; its receiver is drained only "
      "after the join; Err((outcome, errors)) iff the collected vector is non-empty, unchanged), F4 (control adapters map Continue->Ok, Break(e)->Err(e)), "
-     "F5 (try-fold: the step's Err value is the user's error via `?` and no callback is reachable after it), plus T1.FAILED.",
+     "F5 (try-fold: the step's Err value is the user's error via `?` and no callback is reachable after it), F6 (the per-item futures are driven by an adaptor that does not stop at the first Err), plus T1.FAILED.",
      "MIR must-pass-through (dominance/path) analysis from the Err arm + provenance of error values with failure-tagged access paths",
      "that already started futures complete (contract of for_each_concurrent, trusted)")
 
@@ -171,7 +171,8 @@ prop("C08",
      "Decides the wiring only: I1 (opts.interruptibility_state and interrupted_next_item_include flow unchanged from each public parameter - or from "
      "StreamOpts::default() - to the ready-stream wrapper; stream_with_interruptible passes the state to interruptible_with, stream/stream_with do not wrap), "
      "I2 (the include flag selects between wrapping the tracking stream and wrapping the raw receiver followed by a filter whose Interrupted arm clears the id "
-     "and does not record it), I3 (interrupt mapping Interrupted(x)->(x,true), NoInterrupt(x)->(Some(x),false)), I4 = T1.INTERRUPTED, I5 = S5 (the ready stream is the only source of ids).",
+     "and does not record it), I3 (interrupt mapping Interrupted(x)->(x,true), NoInterrupt(x)->(Some(x),false)), I4 = T1.INTERRUPTED, I5 = S5 (the ready stream is the only source of ids), "
+     "B1 (StreamOpts builder methods keep the interruptibility state and include flag set by earlier calls), S7 (no send whose receiver may be gone after an interruption is unwrapped).",
      "MIR taint of option fields from public parameters to sinks + control dependence in the wrapper",
      "THE NUMERIC BOUNDS THEMSELVES (<= 1 / <= n more, pending-signal cases, PollNextN(0)): they are the state machine of interruptible::InterruptibleStream in another crate; fn_graph only wires it")
 
@@ -181,7 +182,7 @@ prop("C09",
      "Decides O1 (the only pushes to fn_ids_processed happen in the ready-stream adaptors, with the id dequeued from READY, once per dequeue, not in per-item bodies), "
      "O2 (StreamOutcome::new stores processed/state unchanged and computes not-processed as the node-order filter !processed.contains(id) over all nodes of the walked structure; "
      "every call site passes the tracked vector and the walked structure), O3 (0 -> Finished, else Interrupted, argument derived from the node_count countdown), "
-     "O4 (the four control wrappers map Ok+Finished -> Continue, Ok+other -> Break((outcome, [])), Err(x) -> Break(x)).",
+     "O4 (the four control wrappers map Ok+Finished -> Continue, Ok+other -> Break((outcome, [])), Err(x) -> Break(x)), O5 (on the fold/for_each paths every StreamOutcome is made by StreamOutcome::new, never a literal/Default).",
      "MIR provenance of pushed ids / constructor arguments + control dependence of the ControlFlow aggregates",
      "the order claim beyond `push happens at dequeue`")
 
@@ -189,7 +190,8 @@ prop("C10",
      [("L1", R.L1, K01, {}), ("L2", R.L2, K01, {}), ("L3", R.L3, K01, {}), ("S6", S.S6, K01, {"roles_filter": ("READY",)})],
      K01,
      "Decides L1 (`limit` flows unchanged from each of the 12 public parameters into StreamExt::for_each_concurrent's limit argument, whose stream is the READY stream) "
-     "and L2 (fold/try_fold paths are driven by StreamExt::fold / TryStreamExt::try_fold and return their state only after the user future's Ready arm).",
+     "L2 (fold/try_fold paths are sequential - StreamExt::fold / try_fold or one `while let .. next().await` loop - and go on only after the user future's Ready arm), "
+     "L3 (`limit` reaches nothing but that argument) and S6[READY] (the ready channel holds every function, so a small limit cannot make the queuer drop ids).",
      "MIR taint from public parameters to the adaptor's argument + must-pass-through of the await's Ready arm",
      "the in-flight count of for_each_concurrent (futures' contract); `any limit >= 1 completes` beyond S4")
 
@@ -198,7 +200,7 @@ prop("C14",
      ("K0", "K4"),
      "Decides Q1 (each of iter, iter_rev, toposort, map, fold, try_fold, for_each, try_for_each creates and steps Topo with the same graph), Q2 (forward APIs walk a "
      "forward-role graph, iter_rev the reversed structure; roles from build()), Q3 (the id produced by Topo indexes self.graph unchanged), Q4 (try_fold/try_for_each return the "
-     "callback's first error and no callback is reachable after it), Q5 (iter_insertion* return node_references()/node_weights_mut() of self.graph unmodified).",
+     "callback's first error, no callback is reachable after it, and every path from a callback to the return inspects its result), Q5 (iter_insertion* return the index-ordered node sequence of self.graph unmodified).",
      "MIR provenance equality of Topo::new / Topo::next graph arguments + structure roles from build()",
      "petgraph::Topo's contract (exactly once, topological)")
 
